@@ -16,7 +16,12 @@ open Util
    I lines: Execute immediately followed by Stop; judged by chk_C18 (a Stop that leaves through its grace although nothing is
             in flight = stop_grace_expired, goroutine_leak, the barrier clauses); the same script is replayed on the model
             with the Stop caller scheduled BEFORE the pipeline goroutines, which must show a join and no goroutine left;
-   L line : two overlapping Stop calls; chk_C18 must accept, the literal reading (chk_literal) does not (F18c). *)
+   L line : two overlapping Stop calls; chk_C18 must accept, the literal reading (chk_literal) does not (F18c);
+   M / MX lines: several goroutines calling EmitSync / Emit on one instance as fast as they can (child process, plain and
+            built with the race detector). Not a statement about the model (data races are outside it): the verdicts are the
+            Go runtime's (the child died: memory_race_crashed), the race detector's (memory_race_detected) and a
+            differential against a private instance of the same query where every goroutine owns its partition
+            (memory_race_wrong_result); plus stuck / panic_escaped / goroutine_leak as everywhere. *)
 
 let string_of_lclause = function
   | ClSinkAfterStop -> "sink_after_stop" | ClSinkRunning -> "sink_running_after_stop" | ClSyncAfterStop -> "emitsync_after_stop" | ClStopGrace -> "stop_grace_expired"
@@ -218,6 +223,18 @@ let run_parked strat bt cap nprod : int * bool =
   List.iter (fun tid -> for _ = 1 to 6 do ignore (try_step tid 2) done) parked;
   (List.length parked, fill_ok && !st.sh.closed && List.for_all finished prods)
 
+let text_of_hex (h : string) : string =
+  if h = "-" then "" else
+  String.init (String.length h / 2) (fun i -> Char.chr (int_of_string ("0x" ^ String.sub h (2 * i) 2)))
+
+(* the case of an M / MX line in words *)
+let describe_hammer mode kind strat nsync nemit ops gates extras =
+  Printf.sprintf "%s build, query kind %s, strategy %s: %s EmitSync goroutine(s) and %s Emit goroutine(s) on one instance, %s rows each, share of rows passing the gate v > 0 per goroutine = %s%%%s"
+    (if mode = "r" then "-race" else "plain") kind strat nsync nemit ops gates
+    (if extras = "-" then "" else " (+ " ^ String.concat ", " (List.filter_map (function
+         | 'g' -> Some "GetStats reader" | 'a' -> Some "AddSink caller" | 't' -> Some "TriggerWindow caller" | 'x' -> Some "overlapping Stop" | _ -> None)
+         (List.init (String.length extras) (String.get extras))) ^ ")")
+
 (* sp:<j> = a panic escaped Stop call j into its caller (recorded by the harness just before sr:<j>) *)
 let stop_panicked tok = String.length tok > 3 && String.sub tok 0 3 = "sp:"
 
@@ -346,6 +363,32 @@ let handle (toks : string list) : string =
        | None ->
            if List.exists (function ESinkBegin _ -> true | _ -> false) tr
               && List.exists (function EStopReturn _ -> true | _ -> false) tr then "ok nt" else "ok")
+  | "MX" :: mode :: kind :: strat :: nsync :: nemit :: ops :: gates :: extras :: "#" :: what :: rest ->
+      let d = describe_hammer mode kind strat nsync nemit ops gates extras in
+      let diag = (match rest with h :: _ -> text_of_hex h | [] -> "") in
+      (match what with
+       | "crashed" -> Printf.sprintf "chk memory_race_crashed the process died while concurrent calls were running on one instance (%s): %s" d diag
+       | "race" -> Printf.sprintf "chk memory_race_detected the race detector reports unsynchronised accesses (%s): %s" d diag
+       | _ -> Printf.sprintf "chk stuck the concurrent calls did not finish (%s)" d)
+  | "M" :: mode :: kind :: strat :: nsync :: nemit :: ops :: gates :: extras :: "#" :: obs ->
+      let d = describe_hammer mode kind strat nsync nemit ops gates extras in
+      (match obs with
+       | ["to"] -> Printf.sprintf "chk stuck a call of the concurrent run (or the Stop after it) did not return (%s)" d
+       | "done" :: calls :: mism :: panics :: leak :: first ->
+           if int_of_string panics > 0 then Printf.sprintf "chk panic_escaped %s panic(s) escaped Emit / EmitSync into the caller (%s)" panics d
+           else if int_of_string mism > 0 then begin
+             let w = (match first with
+                      | [f] -> (match String.split_on_char ':' f with
+                                | [w; i; row; want; got] ->
+                                    Printf.sprintf "; first: goroutine %s call %s row %s: a private instance answers %s, the shared instance answered %s"
+                                      w i (text_of_hex row) (text_of_hex want) (text_of_hex got)
+                                | _ -> "")
+                      | _ -> "") in
+             Printf.sprintf "chk memory_race_wrong_result %s of %s EmitSync answers differ from what a private instance of the same query gives for the goroutine's own rows, although every goroutine owns its partition (%s)%s" mism calls d w
+           end
+           else if leak <> "0" then Printf.sprintf "chk goroutine_leak after the concurrent run and Stop (%s)" d
+           else "ok nt"
+       | _ -> "bad line")
   | "L" :: "#" :: evs ->
       let tr = List.filter_map parse_event evs in
       (match chk_C18 tr with
